@@ -4,7 +4,7 @@ import gc
 from ..replay import guarded
 from ..tla import fmap
 
-Q = 0.25      # one model time unit (exactly representable)
+Q = 0.25      # default model time unit (exactly representable); K['_Q'] overrides it per instance
 
 
 class Env:
@@ -20,6 +20,7 @@ class CoroutinesAdapter:
         self.desper = desper
         self.K = K
         self.G = list(K['G'])
+        self.Q = K.get('_Q', Q)
 
     def reset(self, init):
         desper = self.desper
@@ -41,9 +42,9 @@ class CoroutinesAdapter:
                     if op == 'y':
                         env.log.append((g, i, '-'))
                         if n > 0:
-                            yield n * Q
+                            yield n * self.Q
                         elif n < 0:
-                            yield n * Q
+                            yield n * self.Q
                         else:
                             yield (None if i % 2 else 0)
                     else:
@@ -106,7 +107,7 @@ class CoroutinesAdapter:
         elif name == 'Kill':
             v, ex = guarded(lambda: p.kill(env.gens[args[0]]))
         elif name == 'Process':
-            v, ex = guarded(lambda: p.process(args[0] * Q))
+            v, ex = guarded(lambda: p.process(args[0] * self.Q))
         else:
             raise AssertionError(name)
         ret = 'ok' if ex is None else ('raised' if isinstance(ex, Boom) else type(ex).__name__)
@@ -131,8 +132,8 @@ class CoroutinesAdapter:
         obs['promise_value'] = pv
         obs['held'] = held
         try:
-            obs['wb'] = (p._timer / Q, tuple('S' if x is None else self._name(x) for x in p._active_queue),
-                         frozenset((w.wait_time / Q, self._name(w.generator)) for w in p._wait_queue),
+            obs['wb'] = (p._timer / self.Q, tuple('S' if x is None else self._name(x) for x in p._active_queue),
+                         frozenset((w.wait_time / self.Q, self._name(w.generator)) for w in p._wait_queue),
                          frozenset(self._name(x) for x in p._kill_queue))
         except Exception:
             pass
